@@ -9,11 +9,14 @@ Shape B.  Families of shards:
                Unicode map must return the character (for characters whose codec form is one code of the CMap).
 * ``tou``    -- ToUnicode grammar through generated documents: all maps of <= 3 entries from an 8-entry pool x
                spellings x identity encodings; plus ToUnicode over predefined (non-identity) CMaps.
-* ``w``      -- all W arrays of <= 3 items from an 8-item pool x DW x {Identity-H, 90ms-RKSJ-H}; W2/DW2 x vertical CMaps.
+* ``w``      -- all W arrays of <= 3 items from a 9-item pool (with a range up to CID 65535) x DW x {Identity-H, 90ms-RKSJ-H}; W2/DW2 x vertical CMaps.
 * ``ttf``    -- embedded TrueType cmap tables (formats 0, 4, 12; platform filtering) under Adobe-Identity.
 * ``coll``   -- predefined CMap + character collection wiring through a document; odd-length identity strings.
 * ``fb``     -- ToUnicode maps that omit shown codes: fall back to the collection / the embedded TrueType cmap.
 * ``c2g``    -- CIDToGIDMap (name, plain and Flate streams; identity, shifted, permuted) with an embedded TrueType cmap.
+* ``mixres`` -- one /Font resource dictionary listing fonts partly by reference, partly as direct dictionaries (two
+               ToUnicode composite fonts, a predefined-CMap composite font, a simple font), every order: each font is
+               decoded with its own CMap / ToUnicode / W / DW.
 * ``tw``     -- non-zero word spacing (Tw, the aw operand of ") while composite fonts with two-byte codes show strings
                containing CID 32 / the bytes 0x20: no word spacing is added (it belongs to the single-byte code 32 only).
 * ``tj``     -- every TJ array of <= 4 elements over {two-glyph string, one-glyph string, +250, -500} followed by
@@ -53,8 +56,8 @@ META = {
         "seg: one case per (CMap, byte string); strings = all over the boundary alphabet up to seg_len; judged on the "
         "CIDs of the maximal prefix made of defined codes (whole string when every byte belongs to a defined code); "
         "non-trivial = at least one CID expected. codec: one case per (CMap, code point); non-trivial = in scope "
-        "(codec form is a single defined code). tou (spellings include one begincmap..endcmap section per entry) / "
-        "tj / tw, tw1 (word spacing with two-byte codes; with a single-byte code 32) / fb / c2g / w / ttf / coll / one (several composite fonts in one document: "
+        "(codec form is a single defined code). tou (spellings include one begincmap..endcmap section per entry, and blocks with malformed entries between the well-formed ones) / "
+        "mixres (references and direct dictionaries in one /Font dictionary) / tj / tw, tw1 (word spacing with two-byte codes; with a single-byte code 32) / fb / c2g / w / ttf / coll / one (several composite fonts in one document: "
         "-H and -V font of one collection in every load order, two Type0 fonts sharing one descendant with and "
         "without ToUnicode; each such case runs in its own fresh process): one case per generated document, every glyph's "
         "text, advance and pen displacement compared (tou, fb, coll, onebyte, ttf, c2g documents are additionally read "
@@ -500,7 +503,7 @@ def record_doc(st, fam: str, key, pdf: bytes, expected, vertical: bool, sigbase:
             st.viol_counts[sig] += 1  # counted, not stored
             continue
         st.violation(sig, {"family": "doc", "sub": fam, "desc": desc, "pdf": pdf, "vertical": vertical, "sigbase": sigbase, "index": i,
-                           "expected": [[e["text"], e["adv"], e.get("vx"), e.get("tag", ""), e.get("wtag", ""), e.get("note", ""), e.get("vert"), e.get("page", 0), e.get("shift", 0), e.get("after", 0)] for e in expected]}, exp, ob, what)
+                           "expected": [[e["text"], e["adv"], e.get("vx"), e.get("tag", ""), e.get("wtag", ""), e.get("note", ""), e.get("vert"), e.get("page", 0), e.get("shift", 0), e.get("after", 0), e.get("mixed")] for e in expected]}, exp, ob, what)
 
 
 # ------------------------------------------------------------------ tou family
@@ -525,7 +528,7 @@ TOU_POOL = [
     ("range", b"\x05\xff", b"\x06\x00", "ヿ"),  # target carries across a byte (30FF -> 3100)
     ("char", b"\x00\x20", " "),
 ]
-TOU_SPELLINGS = ["canonical", "comments", "no-begincmap", "one-block-per-kind", "lowercase-hex", "section-per-entry"]
+TOU_SPELLINGS = ["canonical", "comments", "no-begincmap", "one-block-per-kind", "lowercase-hex", "section-per-entry", "malformed-neighbours"]
 TOU_ENCODINGS = [("Identity-H", "name"), ("Identity-V", "name"), ("DLIdent-H", "name"), ("Identity-H", "stream"), ("DLIdent-V", "name"), ("Identity-V", "stream")]
 
 
@@ -569,7 +572,22 @@ def tou_stream(entries, spelling: str, codespace=((b"\x00\x00", b"\xff\xff"),)) 
             return hx(e[1], lower) + b" " + hx(e[2], lower) + b" [" + b" ".join(hx(u16(t), lower) for t in e[3]) + b"]\n"
         return hx(e[1], lower) + (b"\t" if lower else b" ") + hx(e[2], lower) + b" " + hx(u16(e[3]), lower) + b"\n"
 
-    if spelling == "one-block-per-kind":
+    if spelling == "malformed-neighbours":
+        # every block also holds malformed entries (on codes that are never shown) before, between and after the
+        # well-formed ones: a malformed entry is skipped, its neighbours in the block still count
+        bad_r = [b"<F0> <00F1> <0041>\n", b"61680 <F0F1> <0042>\n", b"<F0F2> /x <0043>\n", b"<F0F3> <F0F5> [<0044>]\n"]
+        bad_c = [b"<F0F6> 5\n", b"61687 <0045>\n", b"<F0F8> /y\n"]
+        chars = [e for e in entries if e[0] == "char"]
+        ranges = [e for e in entries if e[0] != "char"]
+        body = [bad_r[0]]
+        for k, e in enumerate(ranges):
+            body += [line(e), bad_r[(k + 1) % len(bad_r)]]
+        out += b"%d beginbfrange\n" % len(body) + b"".join(body) + b"endbfrange\n"
+        body = [bad_c[0]]
+        for k, e in enumerate(chars):
+            body += [line(e), bad_c[(k + 1) % len(bad_c)]]
+        out += b"%d beginbfchar\n" % len(body) + b"".join(body) + b"endbfchar\n"
+    elif spelling == "one-block-per-kind":
         chars = [e for e in entries if e[0] == "char"]
         ranges = [e for e in entries if e[0] != "char"]
         if ranges:
@@ -665,6 +683,7 @@ def W_POOL(base: int):
         ("range", b + 4, b + 4, Fraction(1501, 2)),
         ("list", b + 0, [900]),
         ("range", b + 8, b + 9, 0),
+        ("range", 65533, 65535, 375),  # the range form up to the last CID (absolute, whatever the base)
     ]
 
 
@@ -725,7 +744,7 @@ def build_w(seq, dw, enci):
         extra["DW"] = dw
     default = Fraction(1000 if dw is None else dw)
     if enc == "Identity-H":
-        cids = list(range(0, 14)) + [0xFFFE]
+        cids = list(range(0, 14)) + [0xFFFC, 0xFFFD, 0xFFFE, 0xFFFF]
         codes = [c.to_bytes(2, "big") for c in cids]
         ros = ("Adobe", "Identity", 0)
     else:
@@ -754,6 +773,7 @@ def W2_POOL():
         ("reflist", 5, [(-111, 400, 700), (-222, 410, 710)]),
         ("range", 6, 7, (("ref", -300), 320, 720)),
         ("range", 0, 0, (-900, 500, 880)),
+        ("range", 65534, 65535, (-800, 310, 910)),  # up to the last CID
     ]
 
 
@@ -799,6 +819,7 @@ def build_w2(seq, dw2i, enci):
     dvy, dw1 = dw2 if dw2 is not None else (880, -1000)
     cids = list(range(0, 9))
     if enc in ("Identity-V", "DLIdent-V"):
+        cids += [0xFFFD, 0xFFFE, 0xFFFF]
         codes = [c.to_bytes(2, "big") for c in cids]
         ros = ("Adobe", "Identity", 0)
         umap = None
@@ -1481,6 +1502,82 @@ def classify_tw(kind, e, got):
     return None
 
 
+# ------------------------------------------------------------------ /Font dictionary mixing references and direct dictionaries
+MIXRES_LAYOUTS = [
+    (("T", "ind"), ("J", "dir")),
+    (("J", "dir"), ("T", "ind")),
+    (("J", "ind"), ("T", "dir")),
+    (("T", "ind"), ("S", "dir")),
+    (("S", "ind"), ("T", "dir")),
+    (("S", "ind"), ("J", "dir")),
+    (("T", "ind"), ("J", "dir"), ("S", "dir")),
+    (("J", "ind"), ("S", "dir"), ("T", "ind")),
+    (("T", "ind"), ("T2", "dir")),
+]
+
+
+def mixres_cases():
+    for li in range(len(MIXRES_LAYOUTS)):
+        for show in ("listed-order", "reverse-order"):
+            yield ("mixres", li, show)
+
+
+def build_mixres(li: int, show: str):
+    doc = Doc()
+    lay = MIXRES_LAYOUTS[li]
+
+    def font(kind: str):
+        """-> (font dictionary (not yet an object), string, expected glyphs)"""
+        if kind in ("T", "T2"):  # Identity-H, ToUnicode, W/DW
+            cids = [1, 2, 3, 4]
+            t = ["P", "Q", "R", "S"] if kind == "T" else ["p", "q", "r", "s"]
+            wv = (500, 250) if kind == "T" else (700, 300)
+            d = descendant_obj(doc, ("Adobe", "Identity", 0), sub="CIDFontType2")
+            dd = doc.objs[d.num][1]
+            dd["W"] = [1, [wv[0]], 2, 3, wv[1]]
+            dd["DW"] = 125
+            f = {"Type": N("Font"), "Subtype": N("Type0"), "BaseFont": N("ABCDEF+Foo"), "Encoding": N("Identity-H"), "DescendantFonts": [d],
+                 "ToUnicode": doc.add(Stream({}, tou_stream([("char", c.to_bytes(2, "big"), x) for c, x in zip(cids, t)], "canonical")))}
+            w = {1: wv[0], 2: wv[1], 3: wv[1], 4: 125}
+            exp = [{"text": x, "adv": Fraction(w[c]) * FS / 1000, "tag": "tounicode", "wtag": "W", "note": f"font {kind} cid {c}"} for c, x in zip(cids, t)]
+            return f, b"".join(c.to_bytes(2, "big") for c in cids), exp
+        if kind == "J":  # predefined CMap + collection, DW only
+            d = descendant_obj(doc, ("Adobe", "Japan1", 2))
+            doc.objs[d.num][1]["DW"] = 750
+            f = {"Type": N("Font"), "Subtype": N("Type0"), "BaseFont": N("ABCDEF+Foo"), "Encoding": N("90ms-RKSJ-H"), "DescendantFonts": [d]}
+            sv = "あA亜".encode("cp932")
+            exp = [{"text": ch, "adv": Fraction(750) * FS / 1000, "tag": "collection", "wtag": "DW", "note": f"font J {ch}"} for ch in "あA亜"]
+            return f, sv, exp
+        # simple font
+        f = {"Type": N("Font"), "Subtype": N("Type1"), "BaseFont": N("ABCDEF+Bar"), "Encoding": N("WinAnsiEncoding"), "FirstChar": 65, "LastChar": 67, "Widths": [600, 610, 620],
+             "FontDescriptor": {"Type": N("FontDescriptor"), "FontName": N("ABCDEF+Bar"), "Flags": 32, "FontBBox": [0, -200, 1000, 800], "Ascent": 800, "Descent": -200,
+                                "ItalicAngle": 0, "CapHeight": 700, "StemV": 80, "MissingWidth": 333}}
+        exp = [{"text": ch, "adv": Fraction(w) * FS / 1000, "tag": "simple", "wtag": "Widths", "note": f"font S {ch}"} for ch, w in zip("ABCD", (600, 610, 620, 333))]
+        return f, b"ABCD", exp
+
+    res: Dict[str, Any] = {}
+    shows = {}
+    exps = {}
+    for n, (kind, how) in enumerate(lay):
+        f, sv, exp = font(kind)
+        name = "F%d" % (n + 1)
+        res[name] = doc.add(f) if how == "ind" else f
+        shows[name] = sv
+        after_ind = how == "dir" and any(h == "ind" for _, h in lay[:n])
+        exps[name] = [dict(e, mixed="direct-after-reference" if after_ind else how) for e in exp]
+    names = list(res)
+    if show == "reverse-order":
+        names.reverse()
+    pdf = pages_doc(doc, [res], [[(k, shows[k]) for k in names]])
+    return pdf, [e for k in names for e in exps[k]], False
+
+
+def classify_mixres(kind, e, got):
+    if e is not None and e.get("mixed") == "direct-after-reference":
+        return "C07/direct-font-dict-answered-with-another-font"
+    return None
+
+
 def odd_cases():
     for enc in ("Identity-H", "Identity-V", "DLIdent-H"):
         for s in (b"\x00\x41\x00", b"\x00", b"\x00\x41\x00\x42\x43"):
@@ -1522,6 +1619,9 @@ def doc_case(c):
     if kind == "tw":
         pdf, exp, v = build_tw(c[1], c[2], c[3])
         return pdf, exp, v, "C07/word-spacing", {"encoding": TW_FONTS[c[1]], "operator": c[2], "Tw": c[3]}, classify_tw
+    if kind == "mixres":
+        pdf, exp, v = build_mixres(c[1], c[2])
+        return pdf, exp, v, "C07/mixed-font-resources", {"layout": [list(x) for x in MIXRES_LAYOUTS[c[1]]], "show": c[2]}, classify_mixres
     if kind == "tw1":
         pdf, exp, v = build_tw1(c[1], c[2], c[3])
         return pdf, exp, v, "C07/word-spacing", {"encoding": TW1_FONTS[c[1]][0], "operator": c[2], "Tw": c[3]}, classify_tw1
@@ -1560,6 +1660,7 @@ def all_doc_cases(tier: str) -> List[tuple]:
     out += list(odd_cases())
     out += list(onebyte_cases())
     out += list(tj_cases(tier))
+    out += list(mixres_cases())
     out += list(tw_cases())
     out += list(tw1_cases())
     out += list(fb_cases())
@@ -1695,6 +1796,8 @@ def replay(case):
                 ent["shift"] = row[8]
             if len(row) > 9 and row[9]:
                 ent["after"] = row[9]
+            if len(row) > 10 and row[10]:
+                ent["mixed"] = row[10]
             exp.append(ent)
         d = case["desc"]
         classify = None
@@ -1706,6 +1809,8 @@ def replay(case):
             classify = make_classify_w2(tuple(d["items"]))
         elif d["kind"] == "tw":
             classify = classify_tw
+        elif d["kind"] == "mixres":
+            classify = classify_mixres
         elif d["kind"] == "tw1":
             classify = classify_tw1
         elif d["kind"] == "fb":
